@@ -52,6 +52,8 @@ def replaceAllAux (old new : List Char) : Nat → List Char → List Char
 def replaceAll (s old new : List Char) : List Char := replaceAllAux old new (s.length + 1) s
 
 def sStartsWith (s pre : String) : Bool := startsWith s.toList pre.toList
+/-- `s[len(pre):]` -/
+def sDropLen (s pre : String) : String := String.ofList (s.toList.drop pre.toList.length)
 def sRemoveAll (s old : String) : String := String.ofList (removeAll s.toList old.toList)
 def sReplaceAll (s old new : String) : String :=
   String.ofList (replaceAll s.toList old.toList new.toList)
